@@ -1,6 +1,7 @@
 """C09 — a parser's answers do not depend on what it was asked before.
 
-Model coq/Model/C09ParserState.v (state machine over the carried state), judge coq/Corr/C09Judge.v.
+Model coq/Model/C09ParserState.v (state machine over the carried state), lemmas coq/Proofs/C09Proofs.v, theorems
+coq/Properties/C09.v, judge coq/Corr/C09Judge.v.
 A case is (two parser declarations, a history, an index `at`): the history prefix ops[:at] is run on the re-used
 parsers, ops[at] is the call under test.  The runner (tie/impl/c09_history.py) reports the abstraction of the real
 carried state before/after the call and the answers of the re-used and of a fresh parser (fresh process).
@@ -18,7 +19,7 @@ RULE = ("seeded histories of 1-12 calls over two parsers drawn from: config argu
         "into the class' init_args, two sub-commands (optional/required, with their own config argument); calls: "
         "parse_args (valid, invalid value, unknown option, bad print_config flag, --help, --print_config[=flags] before/"
         "after a failure, inside a sub-command, before a --cfg, class help with and without trailing arguments, unknown "
-        "sub-command), parse_object / parse_string / parse_env (valid, invalid, unknown key, missing required, key "
+        "sub-command, empty --cfg), parse_object / parse_string / parse_env (valid, invalid, unknown key, missing required, key "
         "print_shtab), get_defaults, dump (flag combinations, corrupted cfg), validate (ok / corrupted), "
         "instantiate_classes; every prefix of every history is one case (state before, call, state after, fresh answer); "
         "a case is non-trivial when the history prefix is non-empty; distinct = distinct (declarations, prefix, call)")
@@ -29,6 +30,8 @@ TRUSTED = [
     "module- and class-level containers, runs fresh references in forked pristine processes",
     "hand-written model coq/Model/C09ParserState.v, tied by per-step state and answer agreement evaluated inside Coq",
     "the Gallina printer in tie/props/c09.py",
+    "probe_fixes (tie/props/c09.py): selects the pinned or the repaired model variant at each of the three finding sites "
+    "by replaying the three refutation witnesses on the implementation; the choice is recorded in coverage.model_variant",
 ]
 ASSUMPTIONS = [
     "the `shtab` package is importable (otherwise --print_shtab is never added and finding class 2 cannot occur)",
